@@ -59,6 +59,32 @@ Proof.
 Qed.
 Print Assumptions audit_findings_antitone.
 
+(** the same for the warning: an allowed request without a warning under the
+    stricter warn level has no warning under a laxer one at the same minor *)
+Theorem warn_findings_antitone : forall c c' relax r w w' ls ls' p enf enf' ma ma' mw,
+  let pol := spec_policy ls (cf_defaults c) in
+  let pol' := spec_policy ls' (cf_defaults c') in
+  evaluated_object c r w = Some (ls, p, enf) -> evaluated_object c' r w' = Some (ls', p, enf') ->
+  api_valid p = true -> relaxed_for relax p = false ->
+  effective_minor (lv_version (audit pol)) = Some ma -> effective_minor (lv_version (audit pol')) = Some ma' ->
+  effective_minor (lv_version (warn pol)) = Some mw -> effective_minor (lv_version (warn pol')) = Some mw ->
+  (strictness (lv_level (warn pol')) <= strictness (lv_level (warn pol)))%N ->
+  rs_allowed (fst (validate c (shipped_evaluator relax) r w)) = true ->
+  rs_warnings (fst (validate c (shipped_evaluator relax) r w)) = [] ->
+  rs_warnings (fst (validate c' (shipped_evaluator relax) r w')) = [].
+Proof.
+  intros c c' relax r w w' ls ls' p enf enf' ma ma' mw pol pol' He He' Hv Hr Hma Hma' Hmw Hmw' Hs Hal Hn.
+  destruct (shipped_findings c relax r w ls p enf ma mw He Hv Hr Hma Hmw) as [Hw _].
+  destruct (shipped_findings c' relax r w' ls' p enf' ma' mw He' Hv Hr Hma' Hmw') as [Hw' _].
+  fold pol in Hw. fold pol' in Hw'.
+  rewrite Hal in Hw. cbn [andb] in Hw.
+  destruct (compliant (lv_level (warn pol)) mw p) eqn:Hc.
+  - rewrite (PSS_levels_ordered mw p _ _ (effective_minor_published _ _ Hmw) Hv Hs Hc) in Hw'.
+    cbn [negb] in Hw'. rewrite andb_false_r in Hw'. exact Hw'.
+  - cbn [negb] in Hw. destruct Hw as [t [Ht _]]. rewrite Ht in Hn. discriminate.
+Qed.
+Print Assumptions warn_findings_antitone.
+
 (** non-vacuity of the first: a valid pod compliant at Baseline (hence Privileged) and not at Restricted, minor 24 *)
 Example PSS_levels_ordered_in_scope :
   (24 <= newest_published)%N /\ api_valid example_pod_fixed = true
